@@ -22,6 +22,7 @@ type c12Cell struct {
 	Limit    int     `json:"limit"`
 	Frac     float64 `json:"frac"`
 	Needed   string  `json:"needed"` // nil | false | true
+	Mem      string  `json:"mem,omitempty"` // memory soft limits that can never be exceeded: "" | heap | sys | both
 }
 
 func (c c12Cell) id() string { js, _ := json.Marshal(c); return string(js) }
@@ -42,6 +43,12 @@ func c12Cells(tier string) []Cell {
 				for _, f := range []float64{0, 0.1, 0.25, 0.5, 0.9, 1} {
 					for _, en := range []string{"nil", "false", "true"} {
 						cells = append(cells, Cell{ID: c12Cell{Backend: b, Strategy: s, Limit: l, Frac: f, Needed: en}.id()})
+
+						if f == 0.5 && en != "true" && (l == 2 || l == 6) {
+							for _, mem := range []string{"heap", "sys", "both"} {
+								cells = append(cells, Cell{ID: c12Cell{Backend: b, Strategy: s, Limit: l, Frac: f, Needed: en, Mem: mem}.id()})
+							}
+						}
 					}
 				}
 			}
@@ -94,6 +101,15 @@ func c12One(cc c12Cell, cs c12Case) (string, string, string, int) {
 	cfg := cache.Config{
 		Name: "c12", ExpirationJitter: -1, TimeToLive: time.Hour, CountSoftLimit: uint64(cc.Limit), EvictFraction: cc.Frac,
 		EvictionStrategy: cache.EvictionStrategy(cc.Strategy), Stats: st,
+	}
+
+	// a soft limit of 2^62 bytes is configured but can never be exceeded: it must not cause eviction
+	if cc.Mem == "heap" || cc.Mem == "both" {
+		cfg.HeapInUseSoftLimit = 1 << 62
+	}
+
+	if cc.Mem == "sys" || cc.Mem == "both" {
+		cfg.SysMemSoftLimit = 1 << 62
 	}
 
 	switch cc.Needed {
@@ -373,7 +389,7 @@ func init() {
 			"per cell every size 0..L+6, 3L+7, 10L x every read history of length <=3 (quick) / <=4 (thorough) over 4 keys x {operations 1s apart, 1us apart, all at one instant (tied ranks)}; two cleanup cycles through the janitor's own invokeCleanup; " +
 			"oracle: no eviction without breach, amount within one entry of the documented target, removed ranks <= kept ranks, cache_evict equals the entries actually removed",
 		Assumptions: []string{
-			"HeapInUseSoftLimit / SysMemSoftLimit depend on runtime.ReadMemStats, which is not a seam the harness owns; the shared code path after the decision is exercised through EvictionNeeded",
+			"HeapInUseSoftLimit / SysMemSoftLimit depend on runtime.ReadMemStats, which is not a seam the harness owns; the shared code path after the decision is exercised through EvictionNeeded, and cells with limits of 2^62 bytes (heap only, sys only, both) check that a configured but unexceeded memory limit never evicts",
 			"all entries carry an expiry (never-expiring entries under MostExpired are outside the statement)",
 			"virtual clock advances 1s between operations so that LRU ranks are distinct; the ties variant advances nothing",
 		},
